@@ -294,3 +294,40 @@ def run(ctx):
     from rules_common import check_code_exec_nonnull
     check_code_exec_nonnull(db, rep, "D6-FALLBACK-NONNULL")
 
+    d7_error_latch(db, rep)
+
+
+
+def d7_error_latch(db, rep):
+    """D7: the compile-error flag is a latch.  The only legitimate clearing store undoes an error raised by the operation just
+    attempted, so it must sit where the flag is known to have been clear before that operation: a must-fact `!X->error`
+    (from a dominating branch, not killed by any store to the flag) holds at the store.  Otherwise an earlier failure -
+    register overflow, missing rule - is wiped and compilation carries on with a half-allocated program instead of
+    falling back to emulation."""
+    from flow import Facts
+    from exprval import key_of
+    n = 0
+    for f in db.all_functions():
+        if not f.relfile.startswith("orc/"):
+            continue
+        stores = []
+        for x in f.walk():
+            if x.k == "BinaryOperator" and x.op == "=":
+                l = strip_casts(x.c[0])
+                if l is not None and l.k == "MemberExpr" and l.name == "error" and "OrcCompiler" in ((l.c[0].ty if l.c else "") or "") \
+                        and strip_casts(x.c[1]) is not None and strip_casts(x.c[1]).v == 0:
+                    stores.append((x, key_of(l)))
+        if not stores:
+            continue
+        rep.saw(f)
+        fc = Facts(f)
+        for x, key in stores:
+            n += 1
+            held = [c for c in fc.conds(x) if c[0] != "switch" and c[1] is False and key_of(c[0]) == key]
+            rep.check(bool(held), "D7-ERROR-LATCH", where(f), "clear:%s@%s" % (key, f.name),
+                      "the store clearing %s is reached only where the flag was tested clear before the tolerated operation (line %s)" % (key, held[0][0].line if held else "?"),
+                      "%s clears %s at a point where the flag may already have been set by an earlier failure: that failure is lost, "
+                      "compilation continues and native code built from unallocated registers is installed instead of the emulation fallback" % (f.name, key),
+                      line=x.line)
+    if n < 1:
+        raise AnalysisBroken("no store clearing OrcCompiler.error found (the loop-counter tolerance in orc_compiler_global_reg_alloc is the reference instance)")
